@@ -7,29 +7,10 @@ TRUSTED_COMMON = [
     'Go runtime/stdlib and third-party libraries are modelled, not verified (DESIGN.md section 4)',
 ]
 
-PROPS = {
-    'C01': dict(
-        harness='c01', props='Props/C01.v', models=['Model/Latch.v'],
-        trusted=['ingester and FormatReader enter the theorems as Section variables (any behaviour); '
-                 'the built-in classification tables are extracted from the seven IsContinuableError bodies',
-                 'validity of the JSON bytes is json.Marshal output (stdlib), asserted on every returned slice by the harness'],
-        assumptions=['ing_raw_on_success: an ingester returns a raw record whenever it reports success '
-                     '(proved for the built-in ingester; required of caller-supplied ones)'],
-    ),
-    'C10': dict(
-        harness='c10', props='Props/C10.v', models=['Model/Pipeline.v'],
-        trusted=['evaluator (ParseNode), json.Marshal, MD5/UUIDv3 and idr.JSONify2-encoding enter the theorems as Section variables; the node ID allocator (counter, sync.Pool as arbitrary-choice schedule, recycle) is modelled and its uniqueness invariant proved'],
-        assumptions=['eval_cache_transparent (C02): the per-record transform memo does not change ParseNode results', 'eval_id_renaming (C02): ParseNode results are invariant under injective renaming of node IDs', 'eval_caches_sound (C13 ingredients expr_cache_pure / js_isolation (C20) / node_json_fresh): from any cache state satisfying CInv the result equals the one with empty caches and CInv is kept; CInv_mono', 'content_stable_per_id (guard, DESIGN section 6 F6): the node-JSON cache is only consulted for nodes of the record itself', 'reader model: flat record lists under one parent with a fixed envelope; EDI/csv2/fixedlength2 occurrence counters are outside the model'],
-    ),
-    'C13': dict(
-        harness='c13', props='Props/C13.v', models=['Model/Pipeline.v'],
-        trusted=['evaluator (ParseNode), json.Marshal, MD5/UUIDv3 and idr.JSONify2-encoding enter the theorems as Section variables; the node ID allocator (counter, sync.Pool as arbitrary-choice schedule, recycle) is modelled and its uniqueness invariant proved'],
-        assumptions=['eval_cache_transparent (C02): the per-record transform memo does not change ParseNode results', 'eval_id_renaming (C02): ParseNode results are invariant under injective renaming of node IDs', 'eval_caches_sound (C13 ingredients expr_cache_pure / js_isolation (C20) / node_json_fresh): from any cache state satisfying CInv the result equals the one with empty caches and CInv is kept; CInv_mono', 'content_stable_per_id (guard, DESIGN section 6 F6): the node-JSON cache is only consulted for nodes of the record itself', 'reader model: flat record lists under one parent with a fixed envelope; EDI/csv2/fixedlength2 occurrence counters are outside the model'],
-    ),
-    'C15': dict(
-        harness='c15', props='Props/C15.v', models=['Model/Pipeline.v'],
-        trusted=['evaluator (ParseNode), json.Marshal, MD5/UUIDv3 and idr.JSONify2-encoding enter the theorems as Section variables; the node ID allocator (counter, sync.Pool as arbitrary-choice schedule, recycle) is modelled and its uniqueness invariant proved'] + ['H (MD5) injective: collisions excluded (DESIGN section 4)'],
-        assumptions=['eval_cache_transparent (C02): the per-record transform memo does not change ParseNode results', 'eval_id_renaming (C02): ParseNode results are invariant under injective renaming of node IDs', 'eval_caches_sound (C13 ingredients expr_cache_pure / js_isolation (C20) / node_json_fresh): from any cache state satisfying CInv the result equals the one with empty caches and CInv is kept; CInv_mono', 'content_stable_per_id (guard, DESIGN section 6 F6): the node-JSON cache is only consulted for nodes of the record itself', 'reader model: flat record lists under one parent with a fixed envelope; EDI/csv2/fixedlength2 occurrence counters are outside the model'] + ['eval_hash_renaming (C02): results invariant under injective renaming of declaration hashes',
-                          'XML checksum canon outside the F12 guard (attributes of text-only elements, text beside element children) is refuted: xml_checksum_refuted'],
-    ),
-}
+import glob as _glob, os as _os
+
+# One file per property: bin/props.d/<ID>.py holds a single dict expression with the keys
+# harness, props, models, trusted, assumptions (and optionally harness_timeout).
+PROPS = {}
+for _f in sorted(_glob.glob(_os.path.join(_os.path.dirname(_os.path.abspath(__file__)), 'props.d', 'C*.py'))):
+    PROPS[_os.path.basename(_f)[:-3]] = eval(open(_f).read())
